@@ -116,12 +116,13 @@ func (r *Reader) Read() (seq.Sequence, error) {
 
 func (r *Reader) header(line []byte) (seqio.SequenceAppender, error) {
 	s := r.t.Clone().(seqio.SequenceAppender)
-	fieldMark := bytes.IndexAny(line, " \t")
+	fieldMark := bytes.IndexAny(line[len(r.IDPrefix):], " \t")
 	var err error
 	if fieldMark < 0 {
 		err = s.SetName(string(line[len(r.IDPrefix):]))
 		return s, err
 	} else {
+		fieldMark += len(r.IDPrefix)
 		err = s.SetName(string(line[len(r.IDPrefix):fieldMark]))
 		_err := s.SetDescription(string(line[fieldMark+1:]))
 		if err != nil || _err != nil {
